@@ -126,7 +126,7 @@ fn thread_unpark_stub(_t: &thread::Thread) {
 //@ kind: K3
 //@ complete: yes
 //@ functions: TimerThread::add_timer, TimerThread::del_timer
-//@ statement: TimerThread::add_timer passes exactly the caller's duration to the list, once, and — when the new entry became the head of its list (it may be the
+//@ statement: TimerThread::add_timer passes a duration d' with d <= d' < d + 1ms to the list, once, and — when the new entry became the head of its list (it may be the
 //@ statement: next timer to fire) — wakes the registered timer thread so that it recomputes its sleep; del_timer queues the handle for removal and wakes the
 //@ statement: timer thread. Without the wake-up the timer thread sleeps until its previous deadline (or for ever) and the new timer fires late or never
 #[kani::proof]
@@ -158,7 +158,13 @@ fn c08_5a_timer_thread_is_woken_for_a_new_head() {
     }
     let h = tt.add_timer(d, 7);
     unsafe {
-        assert!(LIST_ADDS == 1 && LIST_ADD_DUR == Some(d), "[C08.5-exact-duration] the timer thread front end passes exactly the caller's duration to the list, once");
+        assert!(LIST_ADDS == 1, "[C08.5-armed-once] one list entry per timer");
+        let armed = LIST_ADD_DUR.unwrap();
+        assert!(armed >= d, "[C08.5-never-early] the timer thread front end arms less than the caller's duration");
+        match d.checked_add(Duration::from_millis(1)) {
+            Some(limit) => assert!(armed < limit, "[C08.5-prompt] the timer thread front end arms a millisecond or more later than asked"),
+            None => {}
+        }
         let expect = if LIST_IS_HEAD && registered { 1 } else { 0 };
         assert!(THREAD_UNPARKS >= expect, "[C08.5-wake-for-new-head] a timer that became the head of its list: the sleeping timer thread must be woken to recompute its sleep, otherwise it fires late or never");
         if !registered {
